@@ -156,6 +156,9 @@ def run(tier, seed, replay=None):
                          + ([("127.0.0.0/9,127.128.0.0/9", 700), ("127.32.0.0/11,127.64.0.0/11,127.96.0.0/11,127.128.0.0/11", 300)] if thorough else [])):
             for limit in ((1, 50) if thorough else (8,)):
                 cases.append(("disccancel %d %d %s" % (limit, ms, nets), [], "disccancel", 0, 0))
+        # ... and through the Driver's own entry point (Driver.discover(ctx)), with and without a configured maximum duration
+        for nets, ms, mx in [("127.0.0.0/10,127.64.0.0/10", 120, 0), ("127.128.0.0/12,127.160.0.0/12", 60, 25), ("127.7.0.0/16", 0, 300)]:
+            cases.append(("drvcancel 8 %d %s %d" % (ms, nets, mx), [], "drvcancel", 0, 0))
         if thorough:
             for a in bs[:1]:
                 for p in (8,):
@@ -195,7 +198,7 @@ def run(tier, seed, replay=None):
         elif kind == "head":
             vals = [x.strip() for x in o if x.strip() != "none"]
             expect = "true" + "".join(" " + v for v in vals)
-        elif kind in ("cancel", "disccancel"):
+        elif kind in ("cancel", "disccancel", "drvcancel"):
             expect = "true"
         if len(samples) < 6 and kind in ("gen", "head") and p in (29, 30, 13, 31):
             samples.append(dict(request=req, go=g[:200], model=expect[:200]))
@@ -204,7 +207,10 @@ def run(tier, seed, replay=None):
         # correspondence broken at this input: evaluate the property on the implementation's behaviour
         replay_d = dict(kind="correspondence", correspondence="C16/ipGenerator-vs-ip_gen", cases=[list(c)],
                         observed=g[:2000], expected=expect[:2000])
-        if kind == "disccancel":
+        if kind == "drvcancel":
+            res.violation("cancel-blocks:driver-discover", "Driver.discover over %s (async limit %s, MaxDiscoverDurationSeconds %s) had not returned 5 s after its caller cancelled the context (%s ms into the run): %s"
+                          % (req.split()[3], req.split()[1], req.split()[4], req.split()[2], g[:200]), replay_d)
+        elif kind == "disccancel":
             res.violation("cancel-blocks:autodiscover", "autoDiscover over %s (async limit %s) had not returned 5 s after its context was cancelled (%s ms into the run): %s"
                           % (req.split()[3], req.split()[1], req.split()[2], g[:200]), replay_d)
         elif kind == "cancel":
